@@ -60,6 +60,81 @@ theorem no_false_success (T D : Nat) (att : Nat → Att) (f i now t : Nat) (h : 
         · obtain ⟨j, hj, hf⟩ := ih _ _ h
           exact ⟨j, by omega, hf⟩
 
+/-- the single-loop facts in the form the composite calls need: the loop returns, at a time between `now` and
+    `max now D` -/
+theorem run_bounds (T D : Nat) (hT : 1 ≤ T) (att : Nat → Att) (f i now : Nat) (hf : D - now + 1 ≤ f) :
+    ∃ t r, run T D att f i now = some (t, r) ∧ now ≤ t ∧ t ≤ max now D := by
+  induction f generalizing i now with
+  | zero => omega
+  | succ f ih =>
+    unfold run
+    by_cases hd : D ≤ now
+    · simp only [hd, if_true]; exact ⟨now, false, rfl, by omega, by omega⟩
+    · simp only [hd, if_false]
+      have hend1 : now + 1 ≤ attemptEnd T D now (att i).dur := by unfold attemptEnd; omega
+      have hend2 : attemptEnd T D now (att i).dur ≤ D := by unfold attemptEnd; omega
+      split
+      · exact ⟨_, true, rfl, by omega, by omega⟩
+      · split
+        · exact ⟨_, false, rfl, by omega, by omega⟩
+        · rename_i hgo
+          simp at hgo
+          obtain ⟨t, r, h1, h2, h3⟩ := ih (i + 1) (attemptEnd T D now (att i).dur + (att i).backoff) (by omega)
+          exact ⟨t, r, h1, by omega, by omega⟩
+
+/-- MULTI-STEP CALLS (session handshake, session close, one SDR walk): any number of steps, each a retry loop under the
+    caller's context with ANY behaviour of the BMC at ANY step: with D − now + 1 units of fuel per step the call
+    returns, no later than max now D -/
+theorem sequence_returns_by_deadline (T D : Nat) (hT : 1 ≤ T) (fuel : Nat) (steps : List (Nat → Att)) (now : Nat)
+    (hf : D - now + 1 ≤ fuel) :
+    ∃ t r, runSeq T D fuel steps now = some (t, r) ∧ now ≤ t ∧ t ≤ max now D := by
+  induction steps generalizing now with
+  | nil => exact ⟨now, true, rfl, by omega, by omega⟩
+  | cons att rest ih =>
+    obtain ⟨t, r, h1, h2, h3⟩ := run_bounds T D hT att fuel 0 now hf
+    simp only [runSeq, h1]
+    cases r with
+    | false => exact ⟨t, false, rfl, h2, h3⟩
+    | true =>
+      obtain ⟨t', r', g1, g2, g3⟩ := ih t (by omega)
+      exact ⟨t', r', g1, by omega, by omega⟩
+
+/-- SDR REPOSITORY RETRIEVAL: the outer retry over whole walks, with any back-off proposals and any BMC behaviour in
+    every walk (modifications, lost reservations, black holes …): returns no later than max now D -/
+theorem retrieval_returns_by_deadline (T D : Nat) (hT : 1 ≤ T) (fuel : Nat) (walk : Nat → List (Nat → Att))
+    (backoff : Nat → Nat) (f i now : Nat) (hfuel : D + 1 ≤ fuel) (hf : D - now + 1 ≤ f) :
+    ∃ t r, runOuter T D fuel walk backoff f i now = some (t, r) ∧ t ≤ max now D := by
+  induction f generalizing i now with
+  | zero => omega
+  | succ f ih =>
+    unfold runOuter
+    by_cases hd : D ≤ now
+    · simp only [hd, if_true]; exact ⟨now, false, rfl, by omega⟩
+    · simp only [hd, if_false]
+      obtain ⟨t, r, h1, h2, h3⟩ := sequence_returns_by_deadline T D hT fuel (walk i) now (by omega)
+      rw [h1]
+      cases r with
+      | true => exact ⟨t, true, rfl, h3⟩
+      | false =>
+        simp only []
+        split
+        · exact ⟨t, false, rfl, h3⟩
+        · rename_i hgo
+          simp at hgo
+          obtain ⟨t', r', g1, g2⟩ := ih (i + 1) (max (t + backoff i) (now + 1)) (by omega)
+          exact ⟨t', r', g1, by omega⟩
+
+/-- … and an expired context ends every composite call at once -/
+theorem expired_context_composite (T D fuel : Nat) (att : Nat → Att) (rest : List (Nat → Att)) (walk : Nat → List (Nat → Att))
+    (backoff : Nat → Nat) (f i now : Nat) (h : D ≤ now) :
+    runSeq T D (fuel + 1) (att :: rest) now = some (now, false) ∧
+    runOuter T D fuel walk backoff (f + 1) i now = some (now, false) := by
+  constructor
+  · simp [runSeq, run, h]
+  · simp [runOuter, h]
+
+example : runSeq 3 20 30 [fun _ => ⟨1, true, 0⟩, fun i => ⟨1, i == 1, 2⟩, fun _ => ⟨9, false, 2⟩] 0 = some (20, false) := by decide
+
 /-- TIE to the source (regenerated on every run): every per-attempt context is derived from the caller's context, every
     retry loop runs under `backoff.WithContext(_, ctx)`, and `transport.Send` sets both socket deadlines from its context -/
 theorem timing_facts :
